@@ -91,6 +91,16 @@ def run(rep, tier):
             first = [g for g in gbad if g.status == "failed"]
             if first:
                 rep.violations.append(("C02.L2." + r.q.name, rep.violations[-1][1], rep.violations[-1][2]))
+    # Layer 1 (shared with C09): the statement `T = op(A,B)` / `T += ...` / construction is the value contract above only if the kernel writes every slot of the
+    # target exactly once through the statement's wrapper and is never evaluated in place on an aliased operand: kernel write-once jobs and the assignProxy /
+    # proxy-constructor policy jobs of these operation families
+    from props import suvfam
+    import suvfam_scen
+    fam = suvfam.Fam(rep, "C02", sub=".l1")
+    suvfam.std_texts(rep)
+    fam.add_kernels(fams=["iCommutator", "ACommutator"])
+    fam.add_proxy(fams=["iCommutator", "ACommutator"])
+    fam.run(scenario=suvfam_scen.scenario)
 
 
 def _violation(rep, r, sub):
